@@ -587,6 +587,8 @@ def variant_name(v):
         return "dump(format=%s%s)" % (v["format"], ", skip_default=True" if v["skip_default"] else "")
     if v["kind"] == "print_config":
         return "--print_config" + ("=" + v["flags"] if v["flags"] else "")
+    if v["kind"] == "print_config_history":
+        return "--print_config history %r on one parser object" % (v["seq"],)
     return "save(format=%s)+parse_path" % v["format"]
 
 
@@ -742,7 +744,7 @@ def run(ctx: Ctx):
         if not res.accepted:
             raise MachineryError("corpus case is no longer accepted: %s (%s)" % (c.get("name"), res.reject_reason))
         ctx.nontrivial("e:" + json.dumps(c["case"], sort_keys=True, default=repr))
-    n_seed = ctx.budget(400, 6000) * boost(3)
+    n_seed = ctx.budget(400, 4500) * boost(3)
     accepted = 0
     for i in range(n_seed):
         if enough(ctx):
@@ -757,7 +759,7 @@ def run(ctx: Ctx):
                 ctx.sample({"spec": [(a["name"], E.type_shape(a["type"])) for a in case["spec"]["args"]], "obj": case["obj"]})
     lap("e2e_corpus_and_seed_driven")
     # wider exploration with a fixed internal seed (known-finding classes allowed; anything else is a violation)
-    n_wide = ctx.budget(280, 5000) * boost(3)
+    n_wide = ctx.budget(280, 3500) * boost(3)
     for i in range(n_wide):
         if enough(ctx):
             break
